@@ -216,6 +216,18 @@ def theorems_of(module):
     return out
 
 
+def leanchecker(modules):
+    """Thorough tier: re-check the compiled property modules (and everything they import from this library) with
+    Lean's independent re-checker of .olean files, one module per call.  Returns list of (module, error text)."""
+    bad = []
+    for m in modules:
+        with Lock('lake'):
+            r = sh(['lake', 'env', 'leanchecker', m], cwd=LEAN)
+        if r.returncode != 0:
+            bad.append((m, r.stdout[-1500:]))
+    return bad
+
+
 def audit(modules):
     """Build the property modules and print the axioms of every theorem stated in them.
     Returns dict: obligations, discharged, broken (list of (name, why)), axioms {name: [..]}, log."""
